@@ -122,11 +122,11 @@ def g_tree(draw, max_nodes=40, max_depth=2, soll_bias=False, min_freetext=0, exp
         budget[0] -= 1
         if draw(st.sampled_from(range(5))) < 3:
             return {"t": "ft", "d": name("D", parent), "expr": draw(expression()),
-                    "inp": draw(st.sampled_from([None, "", "x", "yy", "0", "2022-01-01T00:00:00+01:00"]))}  # fmt: skip
+                    "inp": draw(st.sampled_from([None, "", "x", "yy", "0", "2022-01-01T00:00:00+01:00", " x\n", " ", "100% {0}"]))}  # fmt: skip
         qualifiers = draw(st.lists(st.sampled_from(QUALIFIERS), min_size=1, max_size=5, unique=True))
         pool = [with_meaning(draw, {"q": q, "expr": draw(expression())}) for q in qualifiers]
         return {"t": "vp", "d": name("V", parent), "pool": pool,
-                "inp": draw(st.sampled_from([None, "", "Q", "zz"] + qualifiers + QUALIFIERS[:2]))}  # fmt: skip
+                "inp": draw(st.sampled_from([None, "", "Q", draw(st.sampled_from(gen.FOREIGN_TEXTS))] + qualifiers + QUALIFIERS[:2]))}  # fmt: skip
 
     def segment(parent):
         budget[0] -= 1
